@@ -111,6 +111,10 @@ type Server struct {
 	// Mutex for updating svcs
 	mu sync.Mutex
 
+	// Mutex for looking up, creating and initialising the session of a new
+	// connection (getSession)
+	sessMu sync.Mutex
+
 	// A indicator on whether this server has already checked configuration
 	configOnce sync.Once
 }
@@ -595,6 +599,12 @@ func (svr *Server) getSession(svc *service, req *message.ConnectMessage, resp *m
 	}
 
 	cid := string(req.ClientID())
+
+	// Look-up, creation and initialisation are one step: a second CONNECT with the
+	// same new client id must not find the session between New and Init (it was
+	// answered SessionPresent=1 and its connection failed to start).
+	svr.sessMu.Lock()
+	defer svr.sessMu.Unlock()
 
 	// If CleanSession is NOT set, check the session store for existing session.
 	// If found, return it.
